@@ -1,10 +1,12 @@
 package main
 
 import (
+	"bytes"
 	"crypto/sha1"
 	"encoding/hex"
 	"encoding/json"
 	"fmt"
+	"github.com/robfig/soy/soyjs"
 	"runtime"
 	"sort"
 	"strings"
@@ -71,13 +73,27 @@ func detObserve(fs []srcFile, globals data.Map, dataByTmpl map[string]string, ki
 	}
 	mb := translationsDet(reg, kind)
 	for _, f := range reg.SoyFiles {
+		// a file is identified by its namespace: the file NAME is a label that several files may share
+		ns := ""
+		for _, n := range f.Body {
+			if nn, ok := n.(*ast.NamespaceNode); ok {
+				ns = nn.Name
+			}
+		}
 		for _, fm := range []string{"es5", "es6"} {
 			for mi, b := range []*jsMemBundle{nil, mb} {
-				js, ok := jsWrite(reg, f.Name, fm, b)
-				if !ok {
-					js = "ERR " + js
+				var buf bytes.Buffer
+				opts := soyjs.Options{Formatter: jsFormatter(fm)}
+				if b != nil {
+					opts.Messages = b
 				}
-				obs[fmt.Sprintf("js:%s:%s:%d", f.Name, fm, mi)] = js
+				js := ""
+				if err := soyjs.Write(&buf, f, opts); err != nil {
+					js = "ERR " + err.Error()
+				} else {
+					js = buf.String()
+				}
+				obs[fmt.Sprintf("js:%s:%s:%s:%d", f.Name, ns, fm, mi)] = js
 			}
 		}
 	}
@@ -283,6 +299,15 @@ func genC13det(g *G) {
 		{"unknown-function-in-map-literal", func(r *RNG, fs []srcFile) ([]srcFile, bool) {
 			return bodySite(r, fs, "{length(['a': nosuch1(1), 'b': nosuch2(2), 'c': nosuch3(3), 'd': nosuch4(4)])}")
 		}},
+		// ONE error naming several missing params
+		{"call-missing-several-required-params", func(r *RNG, fs []srcFile) ([]srcFile, bool) {
+			out, ok := bodySite(r, fs[:1], "{call .zq5 /}")
+			if !ok {
+				return nil, false
+			}
+			out[0].content += "\n/**\n * @param alpha\n * @param beta\n * @param gamma\n * @param delta\n * @param eps\n */\n{template .zq5}\n{$alpha}{$beta}{$gamma}{$delta}{$eps}\n{/template}\n"
+			return append(out, fs[1:]...), true
+		}},
 		{"duplicate-template", func(r *RNG, fs []srcFile) ([]srcFile, bool) {
 			out := append([]srcFile(nil), fs...)
 			out[0].content += "\n{template .t0}dup{/template}\n"
@@ -329,6 +354,14 @@ func genC13det(g *G) {
 			}
 		}
 		jobs = append(jobs, job{fs, jsGlobalsFull(), dataBy, i % 2, note, "valid", nt})
+		if i%5 == 0 && len(fs) >= 2 {
+			// the file name is a label for error messages only: different sources may carry the same one
+			same := append([]srcFile(nil), fs...)
+			for k := range same {
+				same[k].name = []string{"part.soy", "", "dir/x.soy"}[(i/5)%3]
+			}
+			jobs = append(jobs, job{same, jsGlobalsFull(), dataBy, 0, note + " +same-file-names", "valid-same-file-names", nt})
+		}
 		if g.R.Intn(6) == 0 {
 			if m, ok := brokenFiles(g.R, fs); ok {
 				jobs = append(jobs, job{m, jsGlobalsFull(), dataBy, 0, note + " +broken-files", "several-errors:broken-files", nt})
